@@ -20,8 +20,11 @@ keygen_from_seed and of try_keygen_with_rng (working and failing generator):
       Power2Round on all of Z_q): engine of C15.
   K8  t is fully reduced before Power2Round: the abstract range of Power2Round's argument is
       inside [0, q-1].
-Not decided: the ring arithmetic t = NTT^-1(A-hat o NTT(s1)) + s2 and the inverse precompute the
-serialisers apply (the keys are stored in NTT/Montgomery form), hence not byte equality itself.
+  K9  the keys are stored in NTT / Montgomery form; one symbolic run of keygen_from_seed followed by
+      into_bytes (sampled coefficients and Power2Round outputs are named symbols, linear forms modulo
+      q carried through the transforms) shows that pkEncode receives exactly t1 and skEncode exactly
+      the sampled s1, s2 (t0: congruent modulo q with unit coefficient, equal given K7's range).
+Not decided: the ring arithmetic t = NTT^-1(A-hat o NTT(s1)) + s2, hence not byte equality itself.
 """
 import json
 import os
@@ -92,7 +95,13 @@ def main(tier):
         pr = {"probe": "high_low::power2round"}
         jobs[s] = [("%s:seed" % s, n["keygen_from_seed"], dict(pr)), ("%s:rng" % s, n["try_keygen_with_rng"], dict(pr, rng="ok")),
                    ("%s:rngfail" % s, n["try_keygen_with_rng"], {"rng": "err"})]
-    res, errs = aicheck.run_sets(jobs)
+    LIN = {"modulus": "8380417", "lin.cap": "600"}
+    for s in sets:
+        n = roots.names(s)
+        jobs[s + ":lin-sk"] = [("%s:lin-sk" % s, n["keygen_from_seed"], dict(LIN, atomize="hashing::rej_bounded_poly|high_low::power2round", identity="encodings::sk_encode",
+                                                                            then=n["sk_into_bytes"], **{"then.field": "1"}))]
+        jobs[s + ":lin-pk"] = [("%s:lin-pk" % s, n["keygen_from_seed"], dict(LIN, atomize="high_low::power2round", identity="encodings::pk_encode", then=n["pk_into_bytes"], **{"then.field": "0"}))]
+    res, errs = aicheck.run_sets(jobs, timeout=6000)
     samples = []
     for s in sets:
         r = res.get(s)
@@ -167,6 +176,34 @@ def main(tier):
                 "power2round_calls": len(p2), "input_range_obligation_violated": bool(p2bad)})
             if ent == "seed":
                 samples.append({"set": s, "seed_expansion": seen, "byte_fields": bytes_fields, "hash_instances": len(a)})
+    # K9: serialisation of a generated key pair is pkEncode / skEncode of the sampled s1, s2 and of Power2Round's output
+    for s in sets:
+        P = aicheck.PARAMS[s]
+        k, l = P["k"], P["l"]
+        for kind, fn, want_runs, n_exact, n_total in (
+                ("pk", "encodings::pk_encode", "power2round#0[0..%d]" % (256 * k), 256 * k, 256 * k),
+                ("sk", "encodings::sk_encode", " ".join("rej_bounded_poly#%d[0..256]" % i for i in range(l + k)), 256 * (l + k), 256 * (l + 2 * k))):
+            r = res.get("%s:lin-%s" % (s, kind))
+            if r is None:
+                vlib.fail_closed(rep, "driver-lin:%s:%s" % (s, kind), errs.get("%s:lin-%s" % (s, kind)))
+                continue
+            j = r["jobs"][0]
+            ip = [p["data"] for p in j["probes"] if p["what"] == "identity" and p["inst"].startswith(fn) and p["data"].get("path", "").endswith("into_bytes")]
+            ok9 = len(ip) == 1 and ip[0]["leaves"] == str(n_total) and int(ip[0]["exact"]) >= n_exact and ip[0]["runs"].startswith(want_runs)
+            t0_note = None
+            if ok9 and kind == "sk":
+                # t0 = second half of Power2Round's output: congruent modulo q with unit coefficient (equal given |t0| <= 2^12, K7)
+                rest = ip[0]["runs"][len(want_runs):].strip()
+                t0_note = rest
+                ok9 = rest in ("?x%d" % (256 * k), "power2round#0[%d..%d]" % (256 * k, 512 * k))
+                if rest.startswith("?"):
+                    ne = ip[0].get("not_exact", "")
+                    ok9 = ok9 and "lin=1*power2round#0[%d] + 0 (mod 8380417)" % (256 * k) in ne
+            ob(ok9, "K9:serialised-%s-is-encode-of-sampled-values" % kind,
+               {"rule": "K9 into_bytes of a generated key hands %s exactly the sampled s1, s2 / the Power2Round output (the NTT / Montgomery precompute and its inverse are transparent)" % fn.split("::")[-1],
+                "set": s, "probe": [{kk: vv[:240] for kk, vv in d.items()} for d in ip][:1], "t0": t0_note})
+            if kind == "pk":
+                samples.append({"set": s, "K9_pk_coefficients_exact": ip[0]["exact"] if ip else None})
     ksamples, kstats = c15.analyse(rep, ob, tier, {"three_bytes", "half_byte", "power2round"}, prefix="K7:")
     cov = {
         "obligations": cnt[0], "discharged": cnt[1],
